@@ -48,7 +48,9 @@ def plainB (env : Env) : Nat → TyExpr → Bool
       nodupB ((s.fields.filter rendered).map (·.goName))
       && nodupB ((s.fields.filter (keyed .yaml)).map (keyOf .yaml))
       && s.fields.all fun fd => !rendered fd ||
-          (!fd.yamlSkip && (if fd.yamlInline then isNull (zeroVal env f fd.ty) else plainB env f fd.ty))
+          (!fd.yamlSkip && (if fd.yamlInline then isNull (zeroVal env f fd.ty)
+              && !((s.fields.filter (keyed .yaml)).map (keyOf .yaml)).contains fd.yamlKey
+            else plainB env f fd.ty))
     | none => match findNamed env.named n with
       | some e => plainB env f e
       | none => false
